@@ -1,12 +1,13 @@
 """C09  Periodic and Bloch domains match their supercells.
 
-Relational contract of one REAL forward step (update_E then update_H).  Along a periodic / Bloch
+Relational contract of the two REAL half steps update_E and update_H, each from an arbitrary phase-tiled
+state (the forward step update_H o update_E follows by composition).  Along a periodic / Bloch
 axis a with N cells and ghost phase phi = exp(i k L), build the supercell of m*N cells whose
 materials are the N-cell ones repeated m times and whose fields are
 
         X(i) = phi^q(i) * x(r(i)),      i = q(i) * N + r(i),  0 <= r(i) < N,  0 <= q(i) < m
 
-(phi = 1 for plain periodic axes).  Obligation:   step_big(X)(i) == phi^q(i) * step_small(x)(r(i))
+(phi = 1 for plain periodic axes).  Obligation per half step h:   h_big(X)(i) == phi^q(i) * h_small(x)(r(i))
 for every i, for E and H, all shapes and values, m in {2, 3}.  The supercell's own ghost phase is the
 real get_bloch_phase of the m*N-cell boundary; the only fact used about it is the homomorphism
 exp(i k m L) = exp(i k L)^m (stated as an axiom instance for the two phase terms that occur) and
@@ -37,7 +38,7 @@ FUNCTIONS = [
 ]
 STUBS = ["exp(i k L) as (cos, sin) uninterpreted functions with the axiom instances exp(i k mL) = exp(i k L)^m and cos^2+sin^2 = 1"]
 ASSUMPTIONS = ["real arithmetic", "exp homomorphism for the two Bloch phase terms that occur", "tiling factors m in {2,3} (property text); several tiled axes follow by composing single-axis statements", "induction over steps is a pencil step"]
-MIN_OBLIGATIONS = {"quick": 60, "thorough": 150}
+MIN_OBLIGATIONS = {"quick": 120, "thorough": 300}
 LEVEL_TEXT = "Deductive proof for all cell counts N, transverse shapes, field and material values and wave vectors that one real forward step of the m-fold supercell equals the phase-tiled step of the N-cell domain; tiled axis, m, boundary kinds on the other axes and material tiers enumerated"
 LEVEL_NOTE = "real arithmetic; m in {2,3}; exp homomorphism assumed for the occurring phase terms"
 
@@ -143,10 +144,13 @@ def _task(spec):
         )
         t_arr, t = K.time_scalar("t")
         c.cover("pre")
-        s1 = U.update_H(t_arr, U.update_E(t_arr, small, objs_s, cfg, True), objs_s, cfg, True)
-        b1 = U.update_H(t_arr, U.update_E(t_arr, bigarr, objs_b, cfg, True), objs_b, cfg, True)
-        prove_arrays_equal("E_supercell", b1.fields.E, tiled(s1.fields.E, True))
-        prove_arrays_equal("H_supercell", b1.fields.H, tiled(s1.fields.H, True))
+        # modular: each half step maps ANY phase-tiled state to the phase-tiled image of the small domain's
+        # half step, so update_H o update_E does (composition).
+        for hname, fn in (("update_E", U.update_E), ("update_H", U.update_H)):
+            s1 = fn(t_arr, small, objs_s, cfg, True)
+            b1 = fn(t_arr, bigarr, objs_b, cfg, True)
+            prove_arrays_equal(f"{hname}:E_supercell", b1.fields.E, tiled(s1.fields.E, True))
+            prove_arrays_equal(f"{hname}:H_supercell", b1.fields.H, tiled(s1.fields.H, True))
 
     return body
 
